@@ -1266,6 +1266,74 @@ fn layout_fpg_mirror(c: &Case, exp: &[Exp]) -> Result<(), String> {
     }
 }
 
+/// the tie for the canonical STACK CFI generator (`gen_chain`, technique `cfi`): the generator's
+/// parameters are recovered from the case — `s0` from the stack pointer, per frame its size in words from
+/// the stack-pointer deltas of the chain, `saves` from the STACK CFI record covering the frame's lookup
+/// address, the saved frame pointer from the chain, `tail` from the length of the stack — and the model
+/// evaluates `gcfiWords` / `gcfiChain` on them (MdModel/Walk/LayoutGen.lean) together with EVERY
+/// hypothesis of `walk_layout_cfi_generated` (`hyp=1`): stack pointer, stack bytes and chain must be the
+/// generated ones
+fn layout_cfi_mirror(case: &str, c: &Case, exp: &[Exp]) -> Result<(), String> {
+    let p = ptr_of(&c.arch);
+    let (base, bytes) = c.stack.as_ref().ok_or("no stack")?;
+    let reg = |n: &str| c.regs.iter().find(|(k, _)| k == n).map(|x| x.1);
+    let (sp, ip) = (reg(sp_name(&c.arch)).ok_or("no sp")?, reg(ip_name(&c.arch)).ok_or("no ip")?);
+    let idx = |a: u64| -> Result<u64, String> {
+        let off = a.checked_sub(*base).ok_or(format!("address {a} below the stack"))?;
+        if off % p != 0 {
+            return Err(format!("address {a} is not word-aligned"));
+        }
+        Ok(off / p)
+    };
+    // does the STACK CFI record covering `la` save the frame pointer (a second `^` rule)
+    let saves_at = |la: u64| -> Result<bool, String> {
+        for (mi, (mb, msz, name)) in c.mods.iter().enumerate() {
+            if la < *mb || la - *mb >= *msz as u64 {
+                continue;
+            }
+            let recs = c.syms.iter().find(|(n, _)| n == name).map(|x| &x.1).ok_or(format!("module {mi} without symbols"))?;
+            for r in recs {
+                if let Rec::C { addr, size, rules } = r {
+                    if mb + addr <= la && la < mb + addr + *size as u64 {
+                        return Ok(rules.matches('^').count() == 2);
+                    }
+                }
+            }
+        }
+        Err(format!("no STACK CFI record covers {la}"))
+    };
+    let s0 = idx(sp)?;
+    let mut s = s0;
+    let mut la = ip;
+    let mut frames = vec![];
+    for e in exp {
+        let esp = idx(e.sp)?;
+        let n = esp.checked_sub(s).ok_or(format!("stack pointer word {esp} below the callee's {s}"))?;
+        let saves = saves_at(la)?;
+        let fpv = if saves && n > 0 { e.fp.ok_or("frame without frame pointer")? } else { 0 };
+        frames.push(format!("{n}:{}:{}:{fpv}", saves as u8, e.ret));
+        s = esp;
+        la = e.ret.wrapping_sub(adj_of(&c.arch));
+    }
+    let nwords = bytes.len() as u64 / p;
+    let tail = nwords.checked_sub(s).ok_or("stack ends inside the outermost frame")?;
+    let fields: Vec<&str> = case.splitn(5, ' ').collect();
+    if fields.len() != 5 || !fields[3].starts_with("win:") {
+        return Err("case line without a win: field".into());
+    }
+    let req = format!("chain layout cfi {base} {s0} {tail} {} {}", if frames.is_empty() { "-".to_string() } else { frames.join(",") }, fields[4]);
+    let want = format!(
+        "hyp=1 sp={sp} stack:{} exp:{}",
+        hex(bytes),
+        exp.iter().map(|e| format!("{},{},{}", e.ret, e.sp, e.fp.map(|x| x.to_string()).unwrap_or("-".into()))).collect::<Vec<_>>().join("|")
+    );
+    match ask_model(&req) {
+        None => Ok(()),
+        Some(got) if got == want => Ok(()),
+        Some(got) => Err(format!("layout({}) = {} expected {}", &req[..req.len().min(200)], &got[..got.len().min(300)], &want[..want.len().min(300)])),
+    }
+}
+
 fn want_trust(tech: &str) -> FrameTrust {
     match tech {
         "fp" => FrameTrust::FramePointer,
@@ -1427,6 +1495,14 @@ impl Engine for Chain {
         if tech == "fp" && !(c.arch == "amd64" && c.os == "windows") {
             match layout_fpg_mirror(&c, &exp) {
                 Ok(()) => res.tags.push(format!("layout-tied:fpg-{}", c.arch)),
+                Err(msg) => res.oracle.push(("layout-not-mirrored".into(), msg)),
+            }
+        }
+        // canonical STACK CFI chains (all seven context kinds / modes): `gcfiWords` / `gcfiChain`,
+        // `preCfi_layout` / `walk_layout_cfi_generated` (C04Gen.lean), all hypotheses evaluated by the model
+        if tech == "cfi" {
+            match layout_cfi_mirror(case, &c, &exp) {
+                Ok(()) => res.tags.push(format!("layout-tied:cfi-{}", c.arch)),
                 Err(msg) => res.oracle.push(("layout-not-mirrored".into(), msg)),
             }
         }
